@@ -23,6 +23,7 @@ RULE = (
     "whose repeated float addition of 1/n does not land exactly on 1.0); distinct = distinct case hash."
 )
 RULE += " " + ('Also generated: a third of the API runs ask for another output namespace; a quarter of the base-signature runs first complete an unrelated run (other schedule / target) on the same sampler object.')
+RULE += " " + ('The exhaustive part also runs adaptive schedules whose every step is the floor (min_step = 1/k and decimal fractions, sharp continuous likelihood, target 0.98): they must end at exactly 1.0.')
 ASSUMPTIONS = [
     "kernel packages minipcn/orng are harness doubles (pbt/doubles); aspire's loop, schedule, resampling and mutate code run unmodified",
     "termination is decided by a ranking argument: every iteration must raise beta by >= beta_tolerance/2 (or the floor); "
